@@ -34,6 +34,9 @@ THEOREMS = [P + t for t in (
     "parse_in_range", "parse_int", "parse_float", "parse_list", "parse_interval",
     "parse_slice_forward", "parse_slice_reversed",
     "dt_governs", "dt_tables", "anti_conj", "order_test_exact",
+    "coup_op_rebuilt", "sys_corr_feeds", "parse_slice_upto", "sys_corr_steps", "kernel_assembly",
+    "kernel_cell_exact", "kernel_cell_algebraic", "kernel_diag_exact",
+    "kernel_diag_degenerate_partial",
 )]
 
 GRIDS = [("0.0", "0.1"), ("0.5", "0.2"), ("-0.3", "0.05"), ("1.7", "0.3")]
@@ -129,13 +132,21 @@ def err_kind(e):
 
 
 def encode(steps):
+    """tagged value of a step tuple; the imaginary part carries an offset of 1/4 so that a
+    complex conjugation (or a dropped imaginary part) of the returned array is visible"""
     s = list(steps) + [0] * (4 - len(steps))
-    return complex(s[0] + TAGB * s[1], s[2] + TAGB * s[3])
+    return complex(s[0] + TAGB * s[1], s[2] + TAGB * s[3] + 0.25)
 
 
 def decode(z, n):
-    re_, im_ = int(round(z.real)), int(round(z.imag))
+    im = z.imag - 0.25
+    if abs(z.real - round(z.real)) > 1e-9 or abs(im - round(im)) > 1e-9 or round(im) < 0 \
+            or round(z.real) < 0:
+        return ("unmatched",)
+    re_, im_ = int(round(z.real)), int(round(im))
     s = [re_ % TAGB, re_ // TAGB, im_ % TAGB, im_ // TAGB]
+    if any(s[n:]):
+        return ("unmatched",)
     return tuple(s[:n])
 
 
@@ -152,10 +163,12 @@ class Tagged:
         self.orig = (sd._compute_ordered_nt_correlations, sd._parse_times)
         self.parsed = []
         self.calls = 0
+        self.opcalls = []      # (operators, ops_order) of every contraction call
 
         def fake(system=None, process_tensor=None, operators=None, first_times=None,
                  last_times=None, ops_order=None, initial_state=None, start_time=0.0, dt=None):
             self.calls += 1
+            self.opcalls.append((list(operators), list(ops_order)))
             last_times.max()    # the real function does this first: ValueError when empty
             f = tuple(int(x) for x in first_times)
             return np.array([encode(f + (int(l),)) for l in last_times], dtype=complex)
@@ -278,6 +291,13 @@ def correspondence(res, tier, rng, corpus_cases=()):
                 if mode == "anti":
                     parsed = parsed[::-1]
                 exp = show_outcome(parsed, times, arr, lambda z: decode(z, k))
+                if mode != "nt":
+                    # which operator went where, applied from which side (every call alike)
+                    names = {id(rig.ops[0]): "operator_a", id(rig.ops[1]): "operator_b"}
+                    sigs = sorted(set(",".join("%s:%s" % (names.get(id(o), "?"), od)
+                                               for o, od in zip(ops, ords))
+                                      for ops, ords in tg.opcalls))
+                    exp += "|call=" + ";".join(sigs)
             except Exception as e:    # noqa: BLE001
                 exp = err_kind(e)
         toks = " ".join(to_tok(sp) for sp in specs)
@@ -371,6 +391,8 @@ def correspondence(res, tier, rng, corpus_cases=()):
 
     # ---- (c) the unmodified code: every entry decoded through single-time calls -
     real_values(res, rig, rng, 24 if quick else 160)
+    # ---- (e) real TwoTimeBathCorrelations objects -----------------------------------
+    bath_correspondence(res, tier, rng)
 
 
 def value_table(rig, n, s, d, k, mode):
@@ -468,11 +490,317 @@ def real_values(res, rig, rng, ncases):
     if len(out) != len(lines):
         raise fw.Infra("driver returned %d lines for %d inputs" % (len(out), len(lines)))
     for line, exp, got, m in zip(lines, expect, out, meta):
+        got = got.split("|call=")[0]
         res.case("real " + line, not exp.startswith("err"),
                  {"op": "real " + line[:150], "impl": exp[:160], "model": got[:160]})
         if exp != got:
             res.disagree("model and unmodified implementation differ on: " + line[:200],
                          {"line": line, "impl": exp, "model": got, "meta": m})
+
+
+# ---------------------------------------------------------------------------
+# bath correlations derived from system correlations (oqupy/bath_dynamics.py)
+# ---------------------------------------------------------------------------
+
+def bath_couplings(rng, nrand):
+    """(name, Hermitian coupling operator) -- diagonal, real non-diagonal, complex with a
+    non-symmetric eigenvector matrix, 3-level"""
+    out = [
+        ("diag sigma_z/2", np.diag([0.5, -0.5]).astype(complex)),
+        ("real non-diagonal", np.array([[0.8, 0.3], [0.3, -0.1]], dtype=complex)),
+        ("complex [[1,-0.5j],[0.5j,0]]", np.array([[1.0, -0.5j], [0.5j, 0.0]])),
+        ("complex 3-level", np.array([[0.9, 0.2 - 0.4j, 0.1j], [0.2 + 0.4j, -0.3, 0.5],
+                                      [-0.1j, 0.5, 0.2]])),
+    ]
+    for i in range(nrand):
+        d = rng.choice([2, 3])
+        m = np.array([[complex(rng.uniform(-1, 1), rng.uniform(-1, 1)) for _ in range(d)]
+                      for _ in range(d)])
+        out.append(("random complex d=%d #%d" % (d, i), (m + m.conj().T) / 2))
+    return out
+
+
+def generic_state(d):
+    v = np.array([1.0 + 0.3j * k + 0.2 * k * k for k in range(d)])
+    r = np.outer(v, v.conj()) + np.diag(np.arange(1, d + 1) * 0.35)
+    return r / np.trace(r)
+
+
+class BathRig:
+    """a real TwoTimeBathCorrelations object on a real PT-TEMPO process tensor; the
+    compute_correlations call it makes is recorded"""
+
+    def __init__(self, o, n=4, dt=0.1, epsrel=1e-6, commuting=False, temperature=2.0):
+        import oqupy
+        import oqupy.bath_dynamics as bd
+        self.bd, self.o, self.n, self.dt = bd, np.array(o, dtype=complex), n, dt
+        d = self.o.shape[0]
+        self.corr = oqupy.PowerLawSD(alpha=0.1, zeta=1.0, cutoff=10.0, cutoff_type="exponential",
+                                     temperature=temperature)
+        self.bath = oqupy.Bath(self.o, self.corr)
+        if commuting:
+            h = 0.7 * self.o
+        else:
+            g = np.array([[0.3 * (i + 1) * (j + 1) + 0.2j * (i - j) for j in range(d)]
+                          for i in range(d)])
+            h = (g + g.conj().T) / 2
+        self.system = oqupy.System(h)
+        self.rho = generic_state(d)
+        self.pt = oqupy.pt_tempo_compute(
+            bath=self.bath, start_time=0.0, end_time=n * dt,
+            parameters=oqupy.TempoParameters(dt=dt, epsrel=epsrel, tcut=None),
+            progress_type="silent")
+        self.obj = bd.TwoTimeBathCorrelations(self.system, self.bath, self.pt,
+                                              initial_state=self.rho)
+        self.calls = []
+
+    def __enter__(self):
+        orig = self.bd.compute_correlations
+        self.orig = orig
+
+        def spy(*a, **k):
+            self.calls.append((a, k))
+            return orig(*a, **k)
+        self.bd.compute_correlations = spy
+        return self
+
+    def __exit__(self, *a):
+        self.bd.compute_correlations = self.orig
+
+    def direct(self, m):
+        """the system correlations the object should hold: <O(t_j) O(t_i)>, i <= j < m, for the
+        operator the Bath was given"""
+        import oqupy
+        _, c = oqupy.compute_correlations(self.system, self.pt, self.o, self.o, slice(m), slice(m),
+                                          initial_state=self.rho, progress_type="silent")
+        return c
+
+
+def sys_corr_mismatch(rig, m):
+    got = np.array(rig.obj._system_correlations)[:m, :m]
+    want = rig.direct(m)
+    if got.shape != want.shape:
+        return {"shape": list(got.shape), "expected_shape": list(want.shape)}
+    if (np.isnan(got) != np.isnan(want)).any():
+        return {"nan_mask": "differs"}
+    dev = float(np.nanmax(np.abs(got - want)))
+    if dev > 1e-10:
+        i, j = np.unravel_index(int(np.nanargmax(np.abs(got - want))), got.shape)
+        return {"max_deviation": dev, "index": [int(i), int(j)], "got": repr(complex(got[i, j])),
+                "direct_compute_correlations_with_the_given_operator": repr(complex(want[i, j]))}
+    return None
+
+
+def bath_correspondence(res, tier, rng):
+    from . import tensors
+    lines, meta = [], []
+    for name, o in bath_couplings(rng, 2 if tier == "quick" else 12):
+        d = o.shape[0]
+        with BathRig(o) as rig:
+            rig.obj.generate_system_correlations(3 * rig.dt, progress_type="silent")
+            rig.obj.generate_system_correlations(4 * rig.dt, progress_type="silent")   # extension
+            bad = sys_corr_mismatch(rig, 4)
+        u, w = rig.bath.unitary_transform, np.diag(rig.bath.coupling_operator)
+        lines.append("rebuild %d | %s | %s | %s" % (d, tensors.flat(u), tensors.flat(w), tensors.flat(o)))
+        meta.append((name, o, rig.calls, bad))
+        res.count("bath:%s" % ("diagonal" if np.allclose(u, np.eye(d)) else
+                               "non-diagonal d=%d" % d))
+    out = fw.run_driver("C07Bath", lines)
+    if len(out) != len(lines):
+        raise fw.Infra("driver C07Bath returned %d lines for %d inputs" % (len(out), len(lines)))
+    for (name, o, calls, bad), g in zip(meta, out):
+        d = o.shape[0]
+        payload = {"coupling": name, "operator_re": o.real.tolist(), "operator_im": o.imag.tolist()}
+        head, _, body = g.partition(" | ")
+        toks = head.split()
+        try:
+            r = {toks[i]: float(fw.parse_rat(toks[i + 1])) for i in range(0, 6, 2)}
+            model_op = np.array([fw.parse_crat(x) for x in body.split()]).reshape(d, d)
+        except Exception:    # noqa: BLE001
+            res.disagree("bath driver answer unreadable: " + g[:120], payload)
+            continue
+        res.case("bath " + name, True, {"op": "rebuild (%s)" % name, "residuals_sq": r,
+                                         "model": "max|rebuilt-O| = %.1e" % np.abs(model_op - o).max()})
+        if any(v > 1e-20 for v in r.values()):
+            res.disagree("Bath's (U, w) is not a diagonalisation of the given operator (%s)" % name,
+                         dict(payload, residuals_sq=r))
+        # the two calls: first [0,3)x[0,3), then the extension [0,4)x[3,4)
+        want_times = [(slice(3), slice(3)), (slice(4), slice(3, 4))]
+        if len(calls) != 2:
+            res.disagree("generate_system_correlations made %d compute_correlations calls" % len(calls),
+                         payload)
+            continue
+        for (a, k), (ta, tb) in zip(calls, want_times):
+            if len(a) != 6 or a[2] is not a[3] or "time_order" in k or a[4] != ta or a[5] != tb \
+                    or sorted(k) != ["initial_state", "progress_type"]:
+                res.disagree("compute_correlations is not called as the model says (%s)" % name,
+                             dict(payload, args=repr(a[4:]), kwargs=sorted(k)))
+            dev = float(np.abs(np.asarray(a[2]) - model_op).max())
+            if dev > 1e-12:
+                res.disagree("operator handed to compute_correlations differs from the model's "
+                             "(regenerated operand order) by %.3g (%s)" % (dev, name), payload)
+        if bad:
+            res.disagree("system correlations held by TwoTimeBathCorrelations differ from "
+                         "compute_correlations with the operator given to Bath (%s)" % name,
+                         dict(payload, **bad))
+
+
+def displaced_oscillator(rig, c_exact):
+    """closed forms for pure dephasing ([H_S, O] = 0): mode a_w(t) = a_w e^{-iwt} - O g (1 - e^{-iwt})/w"""
+    temp = rig.corr.temperature
+
+    def n_th(w):
+        return 1.0 / (np.exp(w / temp) - 1.0)
+
+    def occupation(t, w):
+        return c_exact * rig.corr.spectral_density(w) / w ** 2 * (2 - 2 * np.cos(w * t)) + n_th(w)
+
+    def correlation(t1, t2, w1, w2, dagg):
+        g1, g2 = rig.corr.spectral_density(w1) ** 0.5, rig.corr.spectral_density(w2) ** 0.5
+        p1 = np.exp(1j * (2 * dagg[1] - 1) * w1 * t1)
+        p2 = np.exp(1j * (2 * dagg[0] - 1) * w2 * t2)
+        return c_exact * (p1 * p2 - p1 - p2 + 1) * g1 * g2 / (w1 * w2)
+    return occupation, correlation
+
+
+def search_bath(report, rng):
+    # (4) system correlations of the object vs the operator the Bath was given
+    for name, o in bath_couplings(rng, 2):
+        with BathRig(o) as rig:
+            rig.obj.generate_system_correlations(3 * rig.dt, progress_type="silent")
+            rig.obj.generate_system_correlations(4 * rig.dt, progress_type="silent")
+            bad = sys_corr_mismatch(rig, 4)
+        if bad:
+            report("bath-system-correlations", "bath-system-correlations:coupling=%s" % name,
+                   dict(bad, api="TwoTimeBathCorrelations.generate_system_correlations",
+                        coupling_operator_re=o.real.tolist(), coupling_operator_im=o.imag.tolist(),
+                        how="Bath stores O = U D U^dagger; the operator rebuilt for the system "
+                            "correlations is not O"))
+    # (5) pure dephasing: occupation / two-time bath correlation vs the displaced oscillator
+    for name, o in bath_couplings(rng, 0)[:3]:
+        rig = BathRig(o, n=10, dt=0.1, epsrel=1e-7, commuting=True)
+        c_exact = float(np.trace(rig.o @ rig.o @ rig.rho).real)
+        occ_ref, corr_ref = displaced_oscillator(rig, c_exact)
+        for w in (1.0, 3.0):
+            tl, occ = rig.obj.occupation(w, progress_type="silent")
+            dev = np.abs(occ - occ_ref(tl, w))
+            if not dev.max() < 1e-6:
+                k = int(np.argmax(dev))
+                report("bath-occupation", "bath-occupation:coupling=%s freq=%s" % (name, w),
+                       {"api": "TwoTimeBathCorrelations.occupation", "freq": w, "time": float(tl[k]),
+                        "got": float(occ[k]), "displaced_oscillator_closed_form": float(occ_ref(tl[k], w)),
+                        "coupling_operator_re": o.real.tolist(), "coupling_operator_im": o.imag.tolist(),
+                        "system_hamiltonian": "0.7 * coupling operator (pure dephasing)"})
+        for dagg in [(0, 0), (0, 1), (1, 0), (1, 1)]:
+            t1, t2, w1, w2 = 0.4, 0.9, 1.0, 3.0
+            num = rig.obj.correlation(w1, t1, w2, t2, dagg=dagg, progress_type="silent")
+            ref = corr_ref(t1, t2, w1, w2, dagg)
+            if not abs(num - ref) < 1e-6:
+                report("bath-correlation", "bath-correlation:coupling=%s dagg=%s" % (name, dagg),
+                       {"api": "TwoTimeBathCorrelations.correlation", "freq_1": w1, "time_1": t1,
+                        "freq_2": w2, "time_2": t2, "dagg": list(dagg), "got": repr(complex(num)),
+                        "displaced_oscillator_closed_form": repr(complex(ref)),
+                        "coupling_operator_re": o.real.tolist(), "coupling_operator_im": o.imag.tolist()})
+
+
+# ---------------------------------------------------------------------------
+# exact two-time correlations of a system + ancilla (joint unitary evolution)
+# ---------------------------------------------------------------------------
+
+class AncillaRig:
+    """system qubit + environment qubit, exact joint evolution; the environment as a
+    SimpleProcessTensor without stored dt"""
+
+    def __init__(self, n=4, dt=0.2):
+        import oqupy
+        from scipy.linalg import expm
+        from oqupy.process_tensor import SimpleProcessTensor
+        sx = np.array([[0, 1], [1, 0]], dtype=complex)
+        sy = np.array([[0, -1j], [1j, 0]], dtype=complex)
+        sz = np.array([[1, 0], [0, -1]], dtype=complex)
+        i2 = np.eye(2, dtype=complex)
+        self.n, self.dt, self.i2 = n, dt, i2
+        h_sys = 0.8 * sx + 0.3 * sz + 0.2 * sy
+        h_env = np.kron(0.5 * sz + 0.4 * sx, i2) + 0.9 * np.kron(sx, sz) \
+            + 0.6 * np.kron(sy, sx) + 0.4 * np.kron(sz, sy)           # ancilla (x) system
+        w_env = expm(-1j * h_env * dt)
+        u_half = np.kron(i2, expm(-1j * h_sys * dt / 2))
+        self.v = u_half @ w_env @ u_half
+        self.rho_anc = np.array([[0.7, 0.2 - 0.1j], [0.2 + 0.1j, 0.3]])
+        w4 = w_env.reshape(2, 2, 2, 2)
+        mpo = np.einsum('asbt,ASBT->bBaAtTsS', w4, w4.conj()).reshape(4, 4, 4, 4)
+        pt = SimpleProcessTensor(hilbert_space_dimension=2, dt=None)
+        for k in range(n):
+            ten = np.einsum('b,baio->aio', self.rho_anc.reshape(4), mpo).reshape(1, 4, 4, 4) \
+                if k == 0 else mpo
+            pt.set_mpo_tensor(k, ten)
+        pt.set_cap_tensor(0, np.array([1.0]))
+        for k in range(1, n + 1):
+            pt.set_cap_tensor(k, i2.reshape(4))
+        self.pt, self.system, self.oqupy = pt, oqupy.System(h_sys), oqupy
+
+    def evolve(self, rho, steps):
+        for _ in range(steps):
+            rho = self.v @ rho @ self.v.conj().T
+        return rho
+
+    def exact(self, op_a, op_b, rho_sys, n_a, n_b, anti):
+        """<B(t_b) A(t_a)>: ordered (t_a <= t_b): tr(B E(A rho));  anti (t_b <= t_a): tr(A E(rho B))"""
+        big = lambda x: np.kron(self.i2, x)     # noqa: E731
+        rho0 = np.kron(self.rho_anc, rho_sys)
+        if anti:
+            r = self.evolve(self.evolve(rho0, n_b) @ big(op_b), n_a - n_b)
+            return np.trace(big(op_a) @ r)
+        r = self.evolve(big(op_a) @ self.evolve(rho0, n_a), n_b - n_a)
+        return np.trace(big(op_b) @ r)
+
+    def compare(self, op_a, op_b, rho_sys, anti):
+        times, corr = self.oqupy.compute_correlations(
+            system=self.system, process_tensor=self.pt, operator_a=op_a, operator_b=op_b,
+            times_a=slice(None), times_b=slice(None), time_order="anti" if anti else "ordered",
+            initial_state=rho_sys, start_time=0.0, dt=self.dt, progress_type="silent")
+        for i in range(self.n + 1):
+            for j in range(self.n + 1):
+                wanted = (j <= i) if anti else (i <= j)
+                z = complex(corr[i, j])
+                if not wanted:
+                    if not np.isnan(z.real):
+                        return {"t_a_step": i, "t_b_step": j, "got": repr(z), "expected": "NaN"}
+                    continue
+                ref = complex(self.exact(op_a, op_b, rho_sys, i, j, anti))
+                if not abs(z - ref) < 1e-9:
+                    return {"t_a_step": i, "t_b_step": j, "returned_times": [float(times[0][i]),
+                                                                              float(times[1][j])],
+                            "got": repr(z), "exact_joint_evolution": repr(ref)}
+        return None
+
+
+def search_values(report):
+    """two-time correlations, both orderings, Hermitian and non-Hermitian operators and initial
+    'states', against the exact joint evolution of system + ancilla"""
+    rig = AncillaRig()
+    sm = np.array([[0, 0], [1, 0]], dtype=complex)
+    sp = sm.conj().T
+    sx = np.array([[0, 1], [1, 0]], dtype=complex)
+    sz = np.array([[1, 0], [0, -1]], dtype=complex)
+    gen = np.array([[0.3 + 0.1j, -0.7j], [0.5, 0.2 - 0.4j]])
+    rho_h = np.array([[0.6, 0.1 + 0.25j], [0.1 - 0.25j, 0.4]])
+    rho_nh = np.array([[0.6, 0.3 + 0.2j], [-0.1j, 0.4]])
+    ops = [("sigma_x", sx, "sigma_z", sz), ("sigma_minus", sm, "sigma_plus", sp),
+           ("sigma_minus", sm, "sigma_z", sz), ("generic complex", gen, "sigma_plus", sp)]
+    for rname, rho in (("hermitian", rho_h), ("non-hermitian", rho_nh)):
+        for (na, a, nb, b) in ops:
+            for anti in (False, True):
+                bad = rig.compare(a, b, rho, anti)
+                if bad:
+                    mode = "anti" if anti else "ordered"
+                    report("value-" + mode,
+                           "%s-value:A=%s B=%s initial_state=%s" % (mode, na, nb, rname),
+                           dict(bad, api="compute_correlations", time_order=mode, operator_a=na,
+                                operator_b=nb, initial_state=rname, dt=rig.dt,
+                                process_tensor="exact ancilla qubit (SimpleProcessTensor, no stored dt)",
+                                definition="anti: tr(A . E_{t_b->t_a}(rho(t_b) B)); "
+                                           "ordered: tr(B . E_{t_a->t_b}(A rho(t_a)))"))
 
 
 # ---------------------------------------------------------------------------
@@ -591,6 +919,9 @@ def search(res, rng=None, only=None):
                     "returned_times": [float(t[0][0]), float(t[1][0])], "got": repr(complex(c[0, 0])),
                     "dynamics_with_dt_0.2_gives": repr(complex(ref[0, 0])),
                     "how": "axes are labelled with dt=0.2 but the propagators use the stored dt"})
+    # (4)-(5) bath correlations, (6) values against an exact joint evolution
+    search_bath(report, rng)
+    search_values(report)
     # (3) the time-ordering test on the earlier operators must be exact for long process tensors
     big = 100001
     pt = rig.oq.long_trivial_pt(big, dt=0.1)
@@ -654,8 +985,15 @@ def run(tier, seed, replay):
         "for N<=3 (quick) / N<=5 (thorough), sampled 2-4 operators on N<=5(6), 0/1 operators, "
         "invalid specs; (c) unmodified code with a time-dependent system on an identity process "
         "tensor, entries decoded through single-time calls; (d) dt plumbing for all 9 "
-        "(dt argument, stored dt) combinations.  Non-trivial = not an error/empty outcome; "
-        "distinct = distinct protocol line.")
+        "(dt argument, stored dt) combinations; in (b) the tags are conjugation-sensitive and the "
+        "operators / sides of every contraction call of the two-time wrapper are compared with the "
+        "regenerated tables; (e) real TwoTimeBathCorrelations objects on PT-TEMPO process tensors "
+        "for diagonal, real non-diagonal, complex (non-symmetric eigenvector matrix), 3-level and "
+        "random couplings: Bath's (U, w) satisfies IsDiagonalisation exactly evaluated, the operator "
+        "handed to compute_correlations equals the model's rebuilt operator (1e-12), the call "
+        "arguments/slices are those of the model, and the stored system correlations equal a direct "
+        "compute_correlations with the operator given to Bath (1e-10), first call and extension.  "
+        "Non-trivial = not an error/empty outcome; distinct = distinct protocol line.")
     res.assumptions = [
         "binary64 model: round-to-nearest-even on rationals, no overflow/subnormal/NaN; dt != 0",
         "numpy basic/fancy indexing and CPython slice.indices semantics as modelled "
@@ -666,8 +1004,15 @@ def run(tier, seed, replay):
     res.not_shown = [
         "equality of each entry with the exact multi-time correlation of the joint evolution "
         "(tensor-network contraction; properties C03/C18)",
-        "bath-mode occupations / two-time bath correlations vs the displaced-oscillator closed form "
-        "(bath_dynamics.py kernels)",
+        "that the assembly of the frequency-window kernels from their cells (kernel_table: signs, "
+        "Bose factors, regions a/b/c) yields the bath correlation of the displaced-oscillator model "
+        "is physics and not proved; it is pinned as a table and compared with the closed form on "
+        "the real code only in search() (occupation and two-time correlation, pure dephasing, 1e-6)",
+        "degenerate diagonal kernel cell (equal frequencies, one daggered operator): the source's "
+        "formula differs from the exact triangle integral by (b-a)dt/(ab) (a and b exchanged in the "
+        "linear term); proved harmless for the real kernel (kernel_diag_degenerate_partial), and in "
+        "the imaginary kernel it multiplies Im<O(t)O(t)> = 0 for Hermitian coupling operator and "
+        "state - not observable through the API within its domain, reported as an observation",
         "anti_conj is proved for an abstract Hermiticity-preserving comb; that the process-tensor "
         "dynamics is such a comb is C04's concern",
         "that Python slice/fancy-index semantics are what the model says is checked by "
@@ -686,7 +1031,7 @@ def run(tier, seed, replay):
     # "each entry is the correlation for exactly these operators at these times"
     c18 = ["OQuPyVerif.Props.C18.stack_order_partial", "OQuPyVerif.Props.C18.acts_once_at_step",
            "OQuPyVerif.Props.C18.recorded_word"]
-    fw.standard_pipeline(res, ["CorrTimes", "ControlCompose"], THEOREMS + c18,
+    fw.standard_pipeline(res, ["CorrTimes", "CorrBath", "ControlCompose"], THEOREMS + c18,
                          extra_modules=["OQuPyVerif.Props.C18"])
     built = all(o[1] for o in res.obligations if o[0].startswith("translator"))
     try:
